@@ -56,7 +56,7 @@ PROP = {
             "hooks": [(ROUTING, "mod verif_routing;")],
             "anchors": [(ROUTING, ["advance_ingress_with_validator", "advance_egress_with_validator", "validate_hop",
                                    "validate_segment_change"]),
-                        (STDVIEW, ["calculate_segment_index", "hop_field_mut", "info_field_mut", "set_curr_hop_field"]),
+                        (STDVIEW, ["calculate_segment_index", "hop_field_mut", "info_field_mut", "set_curr_hop_field,"]),
                         (MAC, ["calculate_hop_mac", "mac_beta_step"])],
             "functions": ["StandardPathView::advance_ingress_with_validator", "StandardPathView::advance_egress_with_validator",
                           "HopMacValidator::validate_hop", "StandardPathView::calculate_segment_index",
